@@ -11,7 +11,7 @@ IdT = Tup(Nat, Nat)
 NodeT = Tup(IdT, Nat)
 LabT = Tup(Nat, List(Nat), Bool)
 EdgeT = Tup(IdT, LabT, List(NodeT))
-GraphT = Tup(List(NodeT), List(EdgeT), List(NodeT), List(LabT))
+GraphT = Tup(List(NodeT), List(EdgeT), List(NodeT), List(LabT), List(Nat))
 NameT = Tup(Nat, List(IdT), IdT)
 WTREE = Sum("wtree", "ReplaceCheck",
             {"WT": Tup(Tup(LabT, GraphT), List(Tup(NodeT, Nat)),
@@ -57,7 +57,8 @@ class Ctx:
         self.keep.append(e); return (self.id(e.id), self.lab(e.label), [self.node(n) for n in e.nodes])
     def graph(self, g):
         return ([self.node(n) for n in g.nodes()], [self.edge(e) for e in g.edges()],
-                [self.node(n) for n in g.ext], [self.lab(l) for l in g.edge_labels()])
+                [self.node(n) for n in g.ext], [self.lab(l) for l in g.edge_labels()],
+                [self.nlab(l) for l in g.node_labels()])
     @property
     def nx(self): return len(self.impl)
 
